@@ -58,22 +58,30 @@ struct HdrIn {
 };
 
 // the client (or origin) header block: Connection line(s) from the family template, the extension field, then the fixed fields
+// whitespace put between every field name of the block and its colon ("" = none): replies only -- HttpHeader::parse() tolerates it in
+// replies (and removes it), rejects it in requests
+static const char *colonWs = "";
+static void putName(HdrIn &c, const char *name) { blockPut(c.k, name); blockPut(c.k, colonWs); blockPut(c.k, ":"); }
 static void buildBlock(HdrIn &c, const char *conn1, const char *conn2, const char *xname, const bool reply)
 {
     c.k.n = 0;
     c.nconn = 0;
     blockPut(c.k, reply ? "Server: s\r\n" : "User-Agent: u\r\n");
-    blockPut(c.k, "Connection:");
+    putName(c, "Connection");
     c.cs[0] = blockPut(c.k, conn1); c.cn[0] = c.k.n - c.cs[0]; c.nconn = 1;
     blockPut(c.k, "\r\n");
     c.xs = blockPut(c.k, xname); c.xl = c.k.n - c.xs;
-    blockPut(c.k, ": ext\r\n");
-    blockPut(c.k, "Keep-Alive: timeout=5\r\nTE: trailers\r\nTrailer: X-T\r\nUpgrade: h2c\r\nProxy-Connection: keep-alive\r\n");
-    blockPut(c.k, "Proxy-Authenticate: Basic realm=p\r\n");
+    blockPut(c.k, colonWs); blockPut(c.k, ": ext\r\n");
+    putName(c, "Keep-Alive"); blockPut(c.k, " timeout=5\r\n");
+    putName(c, "TE"); blockPut(c.k, " trailers\r\n");
+    putName(c, "Trailer"); blockPut(c.k, " X-T\r\n");
+    putName(c, "Upgrade"); blockPut(c.k, " h2c\r\n");
+    putName(c, "Proxy-Connection"); blockPut(c.k, " keep-alive\r\n");
+    putName(c, "Proxy-Authenticate"); blockPut(c.k, " Basic realm=p\r\n");
     if (!reply) blockPut(c.k, "Proxy-Authorization: " CLIENT_CRED "\r\n");
-    blockPut(c.k, "Transfer-Encoding: gzip, chunked\r\n");
+    putName(c, "Transfer-Encoding"); blockPut(c.k, " gzip, chunked\r\n");
     if (conn2) {
-        blockPut(c.k, "Connection:");
+        putName(c, "Connection");
         c.cs[1] = blockPut(c.k, conn2); c.cn[1] = c.k.n - c.cs[1]; c.nconn = 2;
         blockPut(c.k, "\r\n");
     }
@@ -270,4 +278,13 @@ extern "C" void c04_req_edges(void) { const Family &f = family(2, 2); request(f.
 extern "C" void c04_req_named(void) { const Family &f = family(4, 3); request(f.conn1, f.conn2, f.xname, false); }
 extern "C" void c04_req_flags(void) { const Family &f = Families[7]; request(f.conn1, f.conn2, f.xname, true); }
 extern "C" void c04_rep_build(void) { const Family &f = family(T(2, 0), T(1, 3)); replyBuild(f.conn1, f.conn2, f.xname); }
+// origin blocks whose field names are followed by whitespace before the colon ("Keep-Alive : timeout=5"): accepted in replies with the
+// whitespace removed, so every filter must still recognise the field; both reply-side kernels, the 'tail' and 'two' families
+extern "C" void c04_rep_ws_colon(void)
+{
+    static const char *const Ws[] = {" ", "\t", " \t"};
+    colonWs = Ws[vf_concretize(vf_range(0, 2, "colonWs"))];
+    const Family &f = family(1, 2);
+    if (vf_concretize(vf_range(0, 1, "kernel"))) replyBuild(f.conn1, f.conn2, f.xname); else reply(f.conn1, f.conn2, f.xname);
+}
 extern "C" void c04_rep_lists(void) { const Family &f = family(0, 7); reply(f.conn1, f.conn2, f.xname); }
